@@ -45,3 +45,25 @@ Proof.
   rewrite E, generated_prune_plan_is_model. reflexivity.
 Qed.
 Print Assumptions generated_physical_is_model.
+
+(** ** C14 theorems, stated of the function generated from the source *)
+From UJ Require Import Cache.TransformProofs.
+From UJ Require Props.C14.
+Theorem C14_write_call_self_contained_on_source :
+  forall p c es output e ce, tctx p c es -> In (e, ce) (entry_ids c es) -> estale e = true -> esource e = false ->
+  let r := fst (gen_physical p c es output) in
+  In (mke (lit_id ce) (write_id ce) (KPos 0)) (pedges r) /\
+  In (mke (enode e) (write_id ce) (KPos 1)) (pedges r) /\
+  In (lit_id ce) (pnodes r) /\ In (enode e) (pnodes r) /\
+  pkind r (lit_id ce) = KLit /\ pkind r (write_id ce) = KCall.
+Proof. intros p c es output e ce. rewrite generated_physical_is_model. apply Props.C14.C14_write_call_self_contained. Qed.
+Print Assumptions C14_write_call_self_contained_on_source.
+
+Theorem C14_read_call_self_contained_on_source :
+  forall p c es output e ce, tctx p c es -> In (e, ce) (entry_ids c es) ->
+  let r := fst (gen_physical p c es output) in
+  In (read_id ce) (pnodes r) ->
+  In (mke (lit_id ce) (read_id ce) (KPos 0)) (pedges r) /\ In (lit_id ce) (pnodes r) /\
+  pkind r (lit_id ce) = KLit /\ pkind r (read_id ce) = KCall.
+Proof. intros p c es output e ce. rewrite generated_physical_is_model. apply Props.C14.C14_read_call_self_contained. Qed.
+Print Assumptions C14_read_call_self_contained_on_source.
